@@ -33,17 +33,21 @@ LEVEL_TEXT = ("Theorems (Lean 4, all (ip,len), no size bound): every derived val
               "ipaddress specification (network = ip AND mask, mask = 2^w - 2^(w-len), last = net OR hostmask = net + 2^(w-len) - 1, "
               "dotted-quad / exploded / compressed text round trips through the stdlib parser model), host bits are kept, integer and "
               "copy constructors build the same object; IPv4 text: every accepted spelling parses to its value (v4_text_forms) and every "
-              "accepted text IS such a spelling of the stored value, everything else raises (v4_rejects); IPv6 text: the exploded and the compressed "
-              "(RFC 5952, as printed by the stdlib) spellings, as 'a', 'a/len' or 'a len' with surrounding blanks, parse to their value "
-              "through regex automaton, blank-to-slash rewrite, the 49-character guard on the normalised text and the stdlib layer "
-              "(v6_text_forms_exploded, v6_text_forms_compressed); an accepted text is consumed completely by regex + stdlib "
-              "(v6_rejects_partial: that the address part is an RFC 4291 spelling of the stored address is a property of the stdlib "
-              "parser model and is measured, not proved); upper case, alternative '::' placements and embedded dotted quads are covered "
-              "by correspondence only. The model (its re-implementation of the stdlib parsing routines and of "
+              "accepted text IS such a spelling of the stored value, everything else raises (v4_rejects); IPv6 text: the stdlib parser model accepts exactly "
+              "the RFC 4291 spellings (Spec.IP.IsV6Spelling: eight groups of 1-4 hex digits in either case, or hi::lo with the missing "
+              "groups zero, last two groups optionally a dotted quad) with exactly their value (stdlib_v6_parser_exact); every such "
+              "spelling, as 'a', 'a/len' or 'a len' with surrounding blanks, parses to its value through regex automaton, blank-to-slash "
+              "rewrite, the 49-character guard on the normalised text and the stdlib layer (v6_text_forms, v6_text_forms_plain; "
+              "the exploded and RFC 5952 compressed texts are instances), and every accepted text IS such a spelling of exactly the "
+              "stored address followed by ASCII digits whose value is the stored length, everything else raises (v6_rejects). RFC 5952 canonicity of the printed text is proved on the zero pattern of the "
+              "groups (leftmost longest run of >= 2 zero groups, text = before::after; strV6_canonical_partial), the bridge to the "
+              "Spec predicate IsShortened/hexShort is not proved. "
+              "The model (its re-implementation of the stdlib parsing routines and of "
               "the two regexes included) is tied to the code by differential runs on every check, and the implementation's answers are "
               "compared to the real `ipaddress` module independently.")
 LEVEL_NOTE = ("Trusted: Lean kernel; axioms propext/Classical.choice/Quot.sound only; the correspondence harness; Python `re` and "
-              "`ipaddress` are modelled (hand-written matchers / re-implementation), their agreement with the real modules is measured, not proved.")
+              "`ipaddress` are modelled (hand-written matchers / re-implementation), their agreement with the real modules is measured, not proved; "
+              "the stdlib IPv6 parser model is additionally proved sound and complete for the RFC 4291 grammar written in Spec/IP.lean.")
 EXHAUSTIVE = {"quick": False, "thorough": False}
 ASSUMPTIONS = [
     "ipaddress (CPython 3.12) parsing/rendering is re-implemented in the model; agreement measured by three-way correspondence",
